@@ -70,7 +70,7 @@ MODEL = dict(
         dict(name="all", module="MC_Timelock",
              constants=dict(_c, Sched={"A", "B", "C"}, Delays={0, 2, U32MAX}, Mins={2}, DTs={0, 2}, HashIds=set(),
                             Depth=5, Emit=True),
-             thorough=dict(Depth=7),
+             thorough=dict(Depth=6),
              invariants=["NoViolation", "Refines"]),
         # an operation naming itself as predecessor can never run (not constructible with a real
         # hash, hence design level only: no behaviours emitted)
